@@ -39,17 +39,28 @@ def seg_case(draw, tier="quick"):
     b = [draw(C.ints(5)) for _ in range(d)]
     return {"d": d, "a": a, "b": b, "inf": draw(st.sampled_from([None, None, None, "b", "a"])), "sa": draw(C.scale()), "sb": draw(C.scale()),
             "off": [draw(C.ints(3)) for _ in range(d)], "coll": draw(st.booleans()),
-            "derive": draw(st.sampled_from(Z.DERIVATIONS)), "move": [draw(st.integers(-4, 4)) for _ in range(3)], "facet": draw(st.sampled_from([None, None, "facets", "edges"]))}
+            "derive": draw(st.sampled_from(Z.DERIVATIONS)), "move": [draw(st.integers(-4, 4)) for _ in range(3)], "facet": draw(st.sampled_from([None, None, "facets", "edges"])),
+            # Cartesian coordinates k * mul / den: for den = 3, 7, 10 they are floats with full mantissas, with mul = 10 of size 10 and more
+            "den": draw(st.sampled_from([1, 1, 3, 7, 10])), "mul": draw(st.sampled_from([1, 1, 10]))}
 
 
 def run_seg(c):
     d = c["d"]
-    a, b = np.array(c["a"], float), np.array(c["b"], float)
+    den, mul = c.get("den", 1), c.get("mul", 1)
+    if den not in (1, 3, 7, 10) or mul not in (1, 10):
+        raise Skip("malformed")
+    if den == 1:
+        mul = 1
+    a, b = np.array(c["a"], float) * mul / den, np.array(c["b"], float) * mul / den
     if c["inf"] is None and np.array_equal(a, b):
         raise Skip("degenerate")
     if c["inf"] and not np.any(b if c["inf"] == "b" else a):
         raise Skip("zero direction")
     sa, sb = C.scale_value(c["sa"]), C.scale_value(c["sb"])
+    if mul != 1:
+        # coordinates of size 10 - 17 already: no further factor (up to 12) on the representatives, the interval test of the library works
+        # with products of four coordinates and an absolute tolerance (moderate magnitudes only)
+        sa, sb = (1.0 if sa > 0 else -1.0), (1.0 if sb > 0 else -1.0)
     if c["inf"]:
         # rays: keep the representative of the direction positive (its sign selects the half line)
         sa, sb = abs(sa), abs(sb)
@@ -84,7 +95,7 @@ def run_seg(c):
             qs.append(np.append(p, 1.0))
             truth.append(0 <= t <= 1)
             cls.append("endpoint" if t in (0, 1) else ("inside" if 0 < t < 1 else "extension"))
-        off = np.array(c["off"], float)
+        off = np.array(c["off"], float) * mul / den
         if np.linalg.matrix_rank(np.stack([b - a, off])) == 2:
             for t in (0.25, 0.5, 1.0):
                 qs.append(np.append(a + t * (b - a) + off, 1.0))
@@ -110,7 +121,7 @@ def run_seg(c):
     qs = np.array(qs)
     truth = np.array(truth)
     fails = []
-    site0 = f"segment{d}:{'ray' if c['inf'] else 'finite'}" + (f":derived({how})" if how else "") + (f":polygon.{facet}[0]-after-another-polygon" if facet else "")
+    site0 = f"segment{d}:{'ray' if c['inf'] else 'finite'}" + (":non-dyadic-coordinates" if den != 1 else "") + (f":derived({how})" if how else "") + (f":polygon.{facet}[0]-after-another-polygon" if facet else "")
     if c["coll"]:
         r, f = call(site0 + ":collection", S.contains, PointCollection(qs))
         if f:
@@ -136,6 +147,8 @@ def run_seg(c):
         labels["derived-from-a-queried-object"] = 1
     if facet:
         labels["edge-of-a-polygon"] = 1
+    if den != 1:
+        labels["non-dyadic-coordinates" + (":size>=10" if mul == 10 else "")] = 1
     return Batch(len(qs), nt, fails, [], labels)
 
 
@@ -443,7 +456,7 @@ def replay_batch(run_fn):
 
 LAWS = [
     Law("segment_contains", None, None, drive=drive_factory(seg_case, run_seg, "segment_contains"), budget={"quick": 600, "thorough": 12000}, shard=200,
-        rule="Segment.contains on the whole parameter grid t = k/4 in [-1.5, 2.5], off-line points, rays"),
+        rule="Segment.contains on the whole parameter grid t = k/4 in [-1.5, 2.5], off-line points, rays; coordinates also k/3, k/7, k/10 and ten times that", mandatory=("non-dyadic-coordinates:size>=10",)),
     Law("polygon_contains", None, None, drive=drive_factory(poly_case, run_poly, "polygon_contains"), budget={"quick": 500, "thorough": 10000}, shard=40,
         rule="Polygon/Triangle/Rectangle/PolygonCollection.contains on the full (half-)lattice grid of the enlarged bounding box; 2D and embedded in 3D; rotations/reversal of the vertex cycle",
         mandatory=("vertex", "edge", "edge-extension", "level-with-vertex", "non-convex", "triangle", "reversed", "single-point-vs-polygons-in-two-planes", "non-dyadic:level-with-vertex", "non-dyadic:level-with-vertex:3d")),
